@@ -19,6 +19,8 @@ class Part:
     cmp = None                  # optional line comparator (x, y) -> bool
     timeout = 120
     compare_model = True        # False: oracle-only part (no model output comparison)
+    advisory = False            # True: a deeper (layout-level) tie whose breakage is recorded in the evidence but is not an
+                                # alarm by itself, because the property-level tie (another part) still carries the theorems
 
     def generate(self, rng, tier):
         """-> list of histories (list of op lines)."""
@@ -186,6 +188,7 @@ def run_check(spec, tier, seed, replay=None):
     opkinds, outcomes = {}, {}
     samples = []
     all_mismatches = []   # (part, name, hist, idx, impl_line, model_line)
+    advisory_broken = {}
     all_oracle_fail = []  # (part, name, hist, key, what, idx)
     for part in parts:
         exe = hexe.get(part.harness)
@@ -224,8 +227,11 @@ def run_check(spec, tier, seed, replay=None):
                     d = part.diff(h, io, mo)
                     if d is not None:
                         ex = part.expected_model_out(h, io)
-                        all_mismatches.append((part, name, h, d, ex[d] if d < len(ex) else "<missing>", mo[d] if d < len(mo) else "<missing>"))
                         mism_names.add(name)
+                        if part.advisory:
+                            advisory_broken.setdefault(part.name, []).append(dict(history=name, op_index=d, op=h[d] if d < len(h) else None))
+                        else:
+                            all_mismatches.append((part, name, h, d, ex[d] if d < len(ex) else "<missing>", mo[d] if d < len(mo) else "<missing>"))
             nk = part.nontrivial_key(h, io)
             if nk is not None:
                 keys.add((part.name, nk))
@@ -240,6 +246,10 @@ def run_check(spec, tier, seed, replay=None):
     rep.cov["traces_validated_against_impl"] = tot["validated"]
     rep.cov["samples"] = samples[:6] or [dict(note="no histories (harness unavailable)")]
     rep.cov["correspondence_mismatches"] = len(all_mismatches)
+    rep.cov["advisory_ties"] = {p.name: ("broken: %d histories diverge, first %s" % (len(advisory_broken[p.name]), advisory_broken[p.name][0])
+                                         if p.name in advisory_broken else "ok") for p in parts if p.advisory}
+    for pn, lst in advisory_broken.items():
+        log("note: advisory tie %s no longer matches the implementation (%d histories); property-level tie decides" % (pn, len(lst)))
 
     # ---- stage 5: verdict
     def shrink_oracle(part, h, key):
